@@ -23,13 +23,16 @@ ImmediateOutcomes == {"accept", "reject", "malformed", "slowok"}
 AnyNodes(k) ==
     {Node(c, o, "none") : c \in Clients, o \in {"accept", "slowok", "late", "hang"}}
     \cup {Node(c, "error", r) : c \in Clients, r \in ReasonsOf(k)}
+    \cup {NodeL(c, "ok", "slowok", "none", d) : c \in Clients, d \in {1, 3}}
+    \cup {NodeL(c, "ok", "slowerr", r, d) : c \in Clients, r \in ReasonsOf(k), d \in {1, 2}}
 
 Dummies ==
     /\ offered = <<>> /\ callAt = <<>> /\ reply = <<>> /\ done = <<>> /\ pre = <<>>
     /\ ret = "none" /\ retAt = "none" /\ final = FALSE
     /\ mpc = "pre" /\ npc = <<>> /\ sem = 0 /\ due = <<>> /\ completed = FALSE
-    /\ tpc = "armed" /\ clock = 0 /\ lost = 0 /\ memo = <<>> /\ held = 0
+    /\ tpc = "armed" /\ clock = 0 /\ lost = 0 /\ memo = <<>> /\ held = 0 /\ fails = 0
     /\ known = <<>> /\ callNo = 1
+    /\ conf = [k \in Kinds |-> {}]     \* not said: every kind is configured with the whole pool (the driver's default)
 
 SInit ==
     /\ sub \in Subs
